@@ -70,11 +70,17 @@ func Run(r *core.Run, prefix string, scenarios []Scenario, bound int) {
 			// solo run: same scheduler machinery (one thread), so that virtual time etc. behave alike
 			var got string
 			q := q
-			verifrt.Run(func(string, int, bool, string) int { return 0 }, verifrt.Options{MaxSteps: 20000}, func() {
+			built := false
+			sres := verifrt.Run(func(string, int, bool, string) int { return 0 }, verifrt.Options{MaxSteps: 20000}, func() {
 				h := sc.Build()
+				built = true
 				verifrt.GoNamed("solo", false, func() { got = call(h, q.Make(), obs) })
 				verifrt.Join()
 			})
+			if !built || got == "" {
+				// the preparation itself failed: nothing would be compared (both runs would be empty alike)
+				core.Fatal("%s concurrent part, scenario %s: the scenario could not be built or served alone (request %s): panics=%v blocked=%v", prefix, sc.Name, q.Name, sres.Panics, sres.Blocked)
+			}
 			solo[q.Name] = got
 		}
 		for i, qa := range sc.Reqs {
